@@ -22,9 +22,18 @@ enum Prim {
     BoxP,
     Cylinder,
     Torus,
+    /// cone with its apex on the surface (gradient undefined at the apex and
+    /// along the axis), cut by a base plane
+    Cone,
+    /// sphere built the way a revolve builds it: sqrt(sqrt(x^2+z^2)^2 + y^2) - r,
+    /// whose gradient is 0/0 at the poles
+    RevolvedSphere,
 }
 
 const PRIMS: [Prim; 6] = [Prim::Sphere(0.3), Prim::Sphere(0.6), Prim::Sphere(0.85), Prim::BoxP, Prim::Cylinder, Prim::Torus];
+/// primitives only used alone (centred off the lattice, on the lattice centre
+/// and on another dyadic lattice line)
+const EXTRA_PRIMS: [Prim; 2] = [Prim::Cone, Prim::RevolvedSphere];
 
 fn prim(b: &mut PB, p: Prim, c: [f32; 3]) -> usize {
     match p {
@@ -45,6 +54,33 @@ fn prim(b: &mut PB, p: Prim, c: [f32; 3]) -> usize {
             let q = b.un(U::Sqrt, s);
             b.subc(q, 0.2)
         }
+        Prim::Cone => {
+            let q = b.circle(c[0], c[1], 0.0);
+            let k = b.c(0.9);
+            let qk = b.mul(q, k);
+            let z = b.z();
+            let dz = b.subc(z, c[2] + 0.45);
+            let side = b.add(qk, dz);
+            let zz = b.z();
+            let nz = b.neg(zz);
+            let base = b.subc(nz, -(c[2] - 0.3));
+            b.max(side, base)
+        }
+        Prim::RevolvedSphere => {
+            let (x, y, z) = (b.x(), b.y(), b.z());
+            let dx = b.subc(x, c[0]);
+            let dy = b.subc(y, c[1]);
+            let dz = b.subc(z, c[2]);
+            let a = b.un(U::Square, dx);
+            let cc = b.un(U::Square, dz);
+            let s = b.add(a, cc);
+            let q = b.un(U::Sqrt, s);
+            let q2 = b.un(U::Square, q);
+            let y2 = b.un(U::Square, dy);
+            let t = b.add(q2, y2);
+            let r = b.un(U::Sqrt, t);
+            b.subc(r, 0.55)
+        }
     }
 }
 
@@ -55,9 +91,13 @@ struct ShapeDesc {
 }
 
 fn single(p: Prim) -> ShapeDesc {
+    single_at(p, [0.03, -0.02, 0.01])
+}
+
+fn single_at(p: Prim, c: [f32; 3]) -> ShapeDesc {
     let mut b = PB::default();
-    let r = prim(&mut b, p, [0.03, -0.02, 0.01]);
-    ShapeDesc { name: format!("{p:?}"), prog: b.done(r) }
+    let r = prim(&mut b, p, c);
+    ShapeDesc { name: if c == [0.03, -0.02, 0.01] { format!("{p:?}") } else { format!("{p:?} centred at {c:?}") }, prog: b.done(r) }
 }
 
 fn pair(a: Prim, bp: Prim, op: usize, off: [f32; 3]) -> ShapeDesc {
@@ -272,6 +312,78 @@ fn reference(p: &Prog, m: &Matrix4<f32>, depth: u8) -> Option<RefInfo> {
     Some(RefInfo { volume: inside as f64 * h * h * h * det, area: crossings as f64 * h * h * lin, resolved, ambiguous_face: amb, zero_on_lattice })
 }
 
+/// Computed only when a degenerate triangle is found (it is expensive): does
+/// part of the surface lie exactly on the octree lattice - the value is zero
+/// (1e-6) at a lattice point or along a stretch of a finest-level lattice edge -
+/// and is the shape non-differentiable (f64 dual numbers undefined: sqrt at 0,
+/// min/max tie...) where its surface crosses a lattice edge?
+fn lattice_degeneracy(p: &Prog, m: &Matrix4<f32>, depth: u8) -> (bool, bool) {
+    use crate::c05::D64;
+    let m64 = m.cast::<f64>();
+    let to_model = |w: [f64; 3]| -> [f64; 3] {
+        let q = m64 * nalgebra::Vector4::new(w[0], w[1], w[2], 1.0);
+        [q[0] / q[3], q[1] / q[3], q[2] / q[3]]
+    };
+    let n = 1usize << depth;
+    let h = 2.0 / n as f64;
+    const K: usize = 16;
+    let (mut on_lattice, mut nondiff) = (false, false);
+    for axis in 0..3 {
+        for a in 0..=n {
+            for b in 0..=n {
+                for c in 0..n {
+                    let at = |t: f64| -> [f64; 3] {
+                        let (pa, pb, pc) = (-1.0 + a as f64 * h, -1.0 + b as f64 * h, -1.0 + (c as f64 + t) * h);
+                        match axis {
+                            0 => [pc, pa, pb],
+                            1 => [pb, pc, pa],
+                            _ => [pa, pb, pc],
+                        }
+                    };
+                    let vals: Vec<f64> = (0..=K).map(|k| value(p, to_model(at(k as f64 / K as f64)))).collect();
+                    if vals[0].abs() < 1e-6 || vals[K].abs() < 1e-6 {
+                        on_lattice = true;
+                    }
+                    for k in 0..K {
+                        if vals[k].abs() < 1e-6 && vals[k + 1].abs() < 1e-6 {
+                            on_lattice = true;
+                        }
+                        if (vals[k] < 0.0) != (vals[k + 1] < 0.0) && !nondiff {
+                            // bisect to the crossing and ask for the gradient there
+                            let (mut lo, mut hi) = (k as f64 / K as f64, (k + 1) as f64 / K as f64);
+                            let neg_lo = vals[k] < 0.0;
+                            for _ in 0..40 {
+                                let mid = 0.5 * (lo + hi);
+                                if (value(p, to_model(at(mid))) < 0.0) == neg_lo {
+                                    lo = mid;
+                                } else {
+                                    hi = mid;
+                                }
+                            }
+                            for t in [lo, hi] {
+                                let q = to_model(at(t));
+                                let vars: Vec<D64> = (0..3)
+                                    .map(|i| {
+                                        let mut d = D64::constant(q[i]);
+                                        d.d[i] = 1.0;
+                                        d.m[i] = 1.0;
+                                        d
+                                    })
+                                    .collect();
+                                match crate::c07::eval_dual(p, &vars) {
+                                    Some(g) if g.d.iter().all(|x| x.is_finite()) => (),
+                                    _ => nondiff = true,
+                                }
+                            }
+                        }
+                    }
+                }
+            }
+        }
+    }
+    (on_lattice, nondiff)
+}
+
 struct MeshStats {
     volume: f64,
     area: f64,
@@ -334,17 +446,41 @@ fn mesh_case<F: Backend + RenderHints>(
     } else {
         None
     };
-    // input class used in violation signatures
-    let class = match &info {
-        Some(i) if i.ambiguous_face.is_some() => {
+    // input classes used in violation signatures (computed from the input
+    // alone, never from the mesher's state)
+    const AMB: &str = " [the sign lattice of some octree level has a face with alternating corner signs]";
+    const UNRES: &str = " [under-resolved: two surface sheets within one cell edge]";
+    const ZERO: &str = " [part of the surface lies exactly on the octree lattice: zero at a lattice point or along a lattice edge]";
+    const NONDIFF: &str = " [the shape is not differentiable where its surface crosses a lattice edge]";
+    if let Some(i) = &info {
+        if i.ambiguous_face.is_some() {
             cx.add("shapes_with_an_ambiguous_lattice_face", 1);
-            " [the sign lattice of some octree level has a face with alternating corner signs]"
         }
-        Some(i) if !i.resolved => {
+        if !i.resolved {
             cx.add("shapes_under_resolved_at_this_depth", 1);
-            " [under-resolved: two surface sheets within one cell edge]"
         }
-        _ => "",
+        if i.zero_on_lattice {
+            cx.add("shapes_with_the_surface_through_a_lattice_point", 1);
+        }
+    }
+    let class_for = |kind: &str| -> &'static str {
+        let Some(i) = &info else { return "" };
+        if kind.starts_with("degenerate triangle (two corners") {
+            let (on_lattice, nondiff) = if i.zero_on_lattice { (true, false) } else { lattice_degeneracy(&s.prog, m, depth) };
+            if on_lattice {
+                return ZERO;
+            }
+            if nondiff {
+                return NONDIFF;
+            }
+        }
+        if i.ambiguous_face.is_some() {
+            AMB
+        } else if !i.resolved {
+            UNRES
+        } else {
+            ""
+        }
     };
     let vref = info.as_ref().map(|i| i.volume);
     let mut ctx = Context::new();
@@ -385,7 +521,7 @@ fn mesh_case<F: Backend + RenderHints>(
     }
     match check_mesh(&mesh) {
         Err((kind, detail)) => {
-            cx.violation(format!("{} mesh: {kind}{class}", F::NAME), desc(), format!("{} triangles, {} vertices: {detail}", mesh.triangles.len(), mesh.vertices.len()));
+            cx.violation(format!("{} mesh: {kind}{}", F::NAME, class_for(&kind)), desc(), format!("{} triangles, {} vertices: {detail}", mesh.triangles.len(), mesh.vertices.len()));
         }
         Ok(st) => {
             if let Some(vref) = vref {
@@ -395,19 +531,19 @@ fn mesh_case<F: Backend + RenderHints>(
                 let tol = 0.5 * area * cell + 1e-3;
                 if mesh.triangles.is_empty() && vref > tol.max(8.0 * cell.powi(3)) {
                     cx.violation(
-                        format!("{} mesh: empty although the shape has volume{class}", F::NAME),
+                        format!("{} mesh: empty although the shape has volume{}", F::NAME, class_for("volume")),
                         desc(),
                         format!("reference volume {vref:.4}"),
                     );
                 } else if !mesh.triangles.is_empty() && st.volume <= 0.0 && vref > tol {
                     cx.violation(
-                        format!("{} mesh: triangles wound inward (negative signed volume){class}", F::NAME),
+                        format!("{} mesh: triangles wound inward (negative signed volume){}", F::NAME, class_for("volume")),
                         desc(),
                         format!("signed volume {:.5}, reference volume {vref:.5}", st.volume),
                     );
                 } else if !mesh.triangles.is_empty() && (st.volume - vref).abs() > tol {
                     cx.violation(
-                        format!("{} mesh: enclosed volume differs from the shape's volume{class}", F::NAME),
+                        format!("{} mesh: enclosed volume differs from the shape's volume{}", F::NAME, class_for("volume")),
                         desc(),
                         format!("mesh volume {:.5}, reference {vref:.5}, tolerance {tol:.5} (area {:.4}, cell {cell})", st.volume, st.area),
                     );
@@ -475,12 +611,19 @@ fn run<F: Backend + RenderHints>(cx: &mut Cx, tier: Tier, u: &Unit) {
         }
         Unit::Singles { .. } => {
             let dmax = if tier == Tier::Quick { 4 } else { 6 };
-            for p in PRIMS {
-                let s = single(p);
+            // every primitive off the lattice, centred on the lattice centre
+            // (axes and poles on lattice lines) and on another dyadic line
+            let mut shapes = vec![];
+            for p in PRIMS.iter().chain(EXTRA_PRIMS.iter()) {
+                shapes.push(single(*p));
+                shapes.push(single_at(*p, [0.0, 0.0, 0.0]));
+                shapes.push(single_at(*p, [0.25, -0.125, 0.0]));
+            }
+            for s in &shapes {
                 for depth in 1..=dmax {
                     for (tname, m) in transforms() {
                         for threads in [false, true] {
-                            case(cx, &s, depth, tname, &m, threads, true);
+                            case(cx, s, depth, tname, &m, threads, true);
                         }
                     }
                 }
